@@ -300,3 +300,19 @@ fn should_print_full_response(request: &lsp_server::Request) -> bool {
         .contains(&request.method.as_str())
         .not()
 }
+
+#[cfg(isographlabs_isograph_verif)]
+pub fn verif_dispatch_notification<TCompilationProfile: CompilationProfile>(
+    notification: lsp_server::Notification,
+    lsp_state: &mut LspState<TCompilationProfile>,
+) -> ControlFlow<Option<LSPRuntimeError>, ()> {
+    dispatch_notification(notification, lsp_state)
+}
+
+#[cfg(isographlabs_isograph_verif)]
+pub fn verif_dispatch_request<TCompilationProfile: CompilationProfile>(
+    request: lsp_server::Request,
+    lsp_state: &LspState<TCompilationProfile>,
+) -> Response {
+    dispatch_request(request, lsp_state)
+}
